@@ -582,6 +582,59 @@ theorem C18_legacy_fanout_checked (md5 : Str → Str) (pdhReq : Str) (order : Li
       · left; rfl
       · right; rfl
 
+/-- The whole legacy delegate `fetchRemoteCollectionByPDH`: a response that did not come from the
+local cluster is forwarded only after a local 404 and only if it is some remote's 200 response that
+`rewriteSignatures` accepted for exactly the requested hash (so `C18_legacy_checks_hash` applies
+to it); a local 200 is forwarded as it is, without a hash test (old behaviour, stated here, outside
+the property's "fetched from a remote cluster"); everything else is an error or a verbatim local
+status. For every completion order. -/
+theorem C18_legacy_fetch_checked (md5 : Str → Str) (req : Str) (loc : LegacyLocal)
+    (order : List (Str × LegacyReply)) :
+    (∀ m, legacyFetchByPDH md5 req loc order = .ok m →
+      loc = .reply (.status 404) ∧
+      ∃ rid mt f, (rid, LegacyReply.record mt f) ∈ order ∧ rewriteSignatures md5 rid req mt f = .ok m) ∧
+    (∀ mt f, legacyFetchByPDH md5 req loc order = .localRecord mt f → loc = .reply (.record mt f)) := by
+  constructor
+  · intro m h
+    unfold legacyFetchByPDH at h
+    split at h
+    · cases h
+    · cases loc with
+      | hang => cases h
+      | reply r =>
+        cases r with
+        | reqErr => cases h
+        | record mt f => cases h
+        | status c =>
+          simp only at h
+          split at h
+          · rename_i hc
+            subst hc
+            refine ⟨rfl, ?_⟩
+            cases hf : legacyFanOut md5 req order with
+            | ok m' =>
+              rw [hf] at h
+              simp only [LegacyFetch.ok.injEq] at h
+              subst h
+              exact (C18_legacy_fanout_checked md5 req order).1 m' hf
+            | error e => rw [hf] at h; cases h
+          · cases h
+  · intro mt f h
+    unfold legacyFetchByPDH at h
+    split at h
+    · cases h
+    · cases loc with
+      | hang => cases h
+      | reply r =>
+        cases r with
+        | reqErr => cases h
+        | record mt' f' => simp only [LegacyFetch.localRecord.injEq] at h; rw [h.1, h.2]
+        | status c =>
+          simp only at h
+          split at h
+          · split at h <;> cases h
+          · cases h
+
 /-- the remote's bytes are already in the form the scanner re-emits: LF-terminated lines, no CR
 before LF -/
 def LegacyNormal (mt : Str) : Prop := (scanLines mt).flatMap (fun l => l ++ ['\n']) = mt
